@@ -409,6 +409,17 @@ Proof.
   subst e. destruct (N.ltb_spec (N.of_nat (length bs)) (32 + 8 * nl)); [right; reflexivity|left; lia].
 Qed.
 
+(* ... and the short form is the exception (known finding C14-bloom-empty-alloc): a 24-byte image flagged EMPTY that
+   announces 2^26 words is charged 512 MiB, far above 64 * 24 + 1 MiB *)
+Definition empty_alloc_image : list N := [3; 1; 21; 4; 5; 0; 0; 0; 41; 35; 0; 0; 0; 0; 0; 0; 0; 0; 0; 4; 0; 0; 0; 0].
+Lemma empty_alloc_witness :
+  ~ long_form empty_alloc_image /\ length empty_alloc_image = 24%nat /\
+  bf_alloc_bytes empty_alloc_image = 536870912 /\ 64 * 24 + 1048576 < bf_alloc_bytes empty_alloc_image.
+Proof.
+  split; [unfold long_form; vm_compute; discriminate|]. split; [reflexivity|].
+  split; vm_compute; reflexivity.
+Qed.
+
 (* ---------- C17: every operation on a well-formed filter succeeds and stays well formed ---------- *)
 Lemma wf_Rep f : wf f -> Rep f (fun p => wbit (bf_words f) p = true).
 Proof. intros H. split; [exact H|]. intros p. tauto. Qed.
